@@ -669,7 +669,11 @@ def s_open(path, mode="r", *a, **k):
         data = VFS[p]
         if "b" in mode and isinstance(data, (str, SStr)):
             data = data.encode("utf-8")
-        if "b" not in mode and isinstance(data, (bytes, SBytes)):
+        if "b" not in mode and isinstance(data, bytes):
+            # concrete bytes read as text: decoded as the real open() would (encoding / errors arguments, universal newlines)
+            enc = k.get("encoding") or (a[1] if len(a) > 1 and a[1] else None) or "utf-8"
+            data = data.decode(enc, k.get("errors") or "strict").replace("\r\n", "\n").replace("\r", "\n")
+        if "b" not in mode and isinstance(data, SBytes):
             raise Unmodelled("text read of byte content")
         return SymInFile(data)
     return builtins.open(path, mode, *a, **k)
